@@ -83,6 +83,11 @@ type EnvCase struct {
 	Svc       vk.Str    `json:"svc"`
 	SchemaOpt bool      `json:"schema_opt"`
 	Schema    string    `json:"schema"`
+	// Neighbours of the environment detector: New(WithAttributes(Pre...),
+	// WithFromEnv(), WithAttributes(Post...)). String key-values whose keys are
+	// drawn from the keys of the environment's pairs, service.name and fresh keys.
+	Pre  []vk.KV `json:"pre,omitempty"`
+	Post []vk.KV `json:"post,omitempty"`
 }
 
 // --- reference percent-encoder ----------------------------------------
@@ -276,9 +281,26 @@ func genEnv(t *rapid.T) EnvCase {
 	if c.SvcMode == "set" {
 		c.Svc = genSvcName(t)
 	}
+	nbKeys := []string{svcKey, "pre.only", "post.only", "both"}
+	for _, p := range c.Pairs {
+		if p.K != "" {
+			nbKeys = append(nbKeys, string(p.K))
+		}
+	}
+	genNb := func(label string) []vk.KV {
+		n := rapid.IntRange(0, 3).Draw(t, label+".n")
+		var out []vk.KV
+		for i := 0; i < n; i++ {
+			out = append(out, vk.KV{K: vk.Str(rapid.SampledFrom(nbKeys).Draw(t, label+".k")), T: "str", S: vk.Str(genRunes(t, label+".v", svcInnerRunes, 0, 3))})
+		}
+		return out
+	}
+	if rapid.Bool().Draw(t, "neighbours") {
+		c.Pre, c.Post = genNb("pre"), genNb("post")
+	}
 	if rapid.IntRange(0, 3).Draw(t, "schema_opt") == 0 {
 		c.SchemaOpt = true
-		c.Schema = rapid.SampledFrom(schemas).Draw(t, "schema")
+		c.Schema = pickSchema(t, "schema", genSchemaPool(t, "schemas"))
 	}
 	return c
 }
@@ -444,8 +466,67 @@ func runEnv(c EnvCase) ([]vk.Violation, vk.Info) {
 	e := resource.Environment()
 	check("Environment()", e, nil, false, "")
 
+	// --- the environment between two neighbours ---
+	// Documented: detectors are called in the order given, each produced
+	// resource is merged into the previous one (later wins), WithAttributes and
+	// WithFromEnv each contribute a detector at their position. Keys whose
+	// environment value is undecodable are asserted only when Post sets them.
+	var postOverEnv, envOverPre, preSurvives bool
+	if len(c.Pre)+len(c.Post) > 0 {
+		pre, post := newCtorModel(vk.ToAttrs(c.Pre)).strict, newCtorModel(vk.ToAttrs(c.Post)).strict
+		want3 := union(union(pre, want), post)
+		nopts := []resource.Option{resource.WithAttributes(vk.ToAttrs(c.Pre)...), resource.WithFromEnv(), resource.WithAttributes(vk.ToAttrs(c.Post)...)}
+		if c.SchemaOpt {
+			nopts = append(nopts, resource.WithSchemaURL(c.Schema))
+		}
+		rn, errn := resource.New(context.Background(), nopts...)
+		got := modelOfSlice(rn.Attributes())
+		for _, k := range want3.keys() {
+			if _, inPost := post.val[k]; badKeys[k] && !inPost {
+				continue
+			}
+			v, ok := got.val[k]
+			if !ok {
+				rep.bad("env_neighbour_lost", "New(WithAttributes(pre), WithFromEnv(), WithAttributes(post)): key %q missing; pre %v, post %v, %s=%q %s=%q(%s), error %v", k, pre.render(), post.render(), envAttrs, env, envSvc, c.Svc, c.SvcMode, errn)
+			} else if vk.ValueKey(v) != vk.ValueKey(want3.val[k]) {
+				rep.bad("env_neighbour_precedence", "New(WithAttributes(pre), WithFromEnv(), WithAttributes(post)): key %q = %s, want %s (later detector wins); pre %v, post %v, %s=%q %s=%q(%s)", k, vk.ValueKey(v), vk.ValueKey(want3.val[k]), pre.render(), post.render(), envAttrs, env, envSvc, c.Svc, c.SvcMode)
+			}
+		}
+		for _, k := range got.keys() {
+			if _, ok := want3.val[k]; !ok && !badKeys[k] {
+				rep.bad("env_unexpected_key", "New(WithAttributes(pre), WithFromEnv(), WithAttributes(post)): key %q (= %s) was supplied by nobody; %s=%q", k, vk.ValueKey(got.val[k]), envAttrs, env)
+			}
+		}
+		if rn.SchemaURL() != wantSchema {
+			rep.bad("env_schema", "New(WithAttributes(pre), WithFromEnv(), WithAttributes(post)): schema URL %q, want %q", rn.SchemaURL(), wantSchema)
+		}
+		if nNoEq > 0 && (errn == nil || !errors.Is(errn, resource.ErrPartialResource)) {
+			rep.bad("env_missing_value_not_reported", "New(WithAttributes(pre), WithFromEnv(), WithAttributes(post)): %d element(s) without '=' but error = %v; %s=%q", nNoEq, errn, envAttrs, env)
+		}
+		if allWellFormed && errn != nil {
+			rep.bad("env_spurious_error", "New(WithAttributes(pre), WithFromEnv(), WithAttributes(post)): every element is well-formed but error = %v; %s=%q", errn, envAttrs, env)
+		}
+		for k, v := range want.val {
+			if pv, ok := post.val[k]; ok && vk.ValueKey(pv) != vk.ValueKey(v) {
+				postOverEnv = true
+			}
+			if pv, ok := pre.val[k]; ok && vk.ValueKey(pv) != vk.ValueKey(v) {
+				envOverPre = true
+			}
+		}
+		for k := range pre.val {
+			_, e := want.val[k]
+			_, p := post.val[k]
+			preSurvives = preSurvives || (!e && !p && !badKeys[k])
+		}
+	}
+
 	overrides := c.SvcMode == "set" && hadAttrSvc && attrSvc.AsString() != string(c.Svc)
-	info.NonTrivial = escapes > 0 || overrides
+	info.NonTrivial = escapes > 0 || overrides || postOverEnv || envOverPre
+	info.ClassIf(postOverEnv, "later_WithAttributes_overrides_environment")
+	info.ClassIf(envOverPre, "environment_overrides_earlier_WithAttributes")
+	info.ClassIf(preSurvives, "earlier_WithAttributes_key_survives_environment")
+	info.ClassIf(postOverEnv && nNoEq+nBad+nEmptyKey+nEmpty > 0, "neighbours_of_a_partially_failing_environment")
 	info.ClassIf(escapes > 0, "percent_escapes>=1")
 	info.ClassIf(escapes >= 8, "percent_escapes>=8")
 	info.ClassIf(lowerHex, "lower_case_hex")
@@ -467,6 +548,9 @@ func runEnv(c EnvCase) ([]vk.Violation, vk.Info) {
 	info.ClassIf(invalidUTF8, "invalid_utf8_value")
 	info.ClassIf(rawEq, "raw_=_in_value")
 	info.ClassIf(c.SchemaOpt, "with_schema_url_option")
+	if c.SchemaOpt {
+		schemaClasses(info.ClassIf, c.Schema)
+	}
 	return rep.vs, info
 }
 
@@ -475,8 +559,8 @@ func TestEnv(t *testing.T) {
 		Property: "C19", Check: "env",
 		Rule: "OTEL_RESOURCE_ATTRIBUTES (unset, blank, or 0..8 elements) rendered from generated pairs with distinct token keys and hostile byte-string values by a reference percent-encoder " +
 			"(mandatory bytes, every byte, or a random mask; either hex case; OWS padding), mixed with elements without '=', undecodable escapes, empty keys and empty elements; " +
-			"OTEL_SERVICE_NAME unset | empty | set; optional WithSchemaURL; observed through resource.New(WithFromEnv()) and resource.Environment(); " +
-			"non-trivial = the rendered variable holds >= 1 percent escape of a well-formed pair, or OTEL_SERVICE_NAME overrides a different service.name in the list; distinct = distinct case encodings",
+			"OTEL_SERVICE_NAME unset | empty | set; optional WithSchemaURL; observed through resource.New(WithFromEnv()), resource.Environment() and, in half of the cases, New(WithAttributes(pre), WithFromEnv(), WithAttributes(post)) with string key-values on the environment's keys, service.name and fresh keys; " +
+			"non-trivial = the rendered variable holds >= 1 percent escape of a well-formed pair, or OTEL_SERVICE_NAME overrides a different service.name in the list, or a neighbour and the environment disagree on a key; distinct = distinct case encodings",
 		Quick: 50000, Thorough: 600000,
 		Gen: genEnv, Run: runEnv,
 	})
